@@ -12,7 +12,11 @@ class CustomError(Exception):
     pass
 
 
-EXC_TYPES = [ValueError, KeyError, CustomError]
+class CustomBase(BaseException):
+    """not an Exception: what KeyboardInterrupt / SystemExit are"""
+
+
+EXC_TYPES = [ValueError, KeyError, CustomError, CustomBase]
 TMP = os.path.join(lib.SCRATCH, "tmp_c17")
 
 
@@ -118,7 +122,7 @@ class CHECK(Check):
                     for buf in (False, True):
                         for n in ns:
                             for k in list(range(n)) + [None]:
-                                for et in range(6):
+                                for et in range(2 * len(EXC_TYPES)):
                                     if k is None and et:
                                         continue
                                     behs = []
